@@ -13,6 +13,7 @@ import (
 	"pgregory.net/rapid"
 
 	"github.com/formancehq/go-libs/v5/pkg/storage/bun/paginate"
+	"github.com/formancehq/go-libs/v5/pkg/types/metadata"
 	libtime "github.com/formancehq/go-libs/v5/pkg/types/time"
 
 	ledger "github.com/formancehq/ledger/internal"
@@ -84,7 +85,7 @@ func createElement(ps ledger.Postings, ref string) bulking.BulkElement {
 	return bulking.BulkElement{Action: bulking.ActionCreateTransaction, Data: bulking.TransactionRequest{Postings: ps, Reference: ref}}
 }
 
-const ruleC11 = "a generated source history (postings and Numscript creates on both runtimes, reverts, metadata save/delete with adversarial strings, failing writes leaving id gaps) is exported with the real Export, sent through JSON, and imported with the real Import (state tracker included) into a fresh ledger of another bucket with the same features; the copy must equal the source on every read (transactions, accounts, volumes, aggregated balances, logs and their hashes); then the first write goes through a drawn path (single request / non-atomic bulk / atomic bulk) and must succeed with ids that continue the imported ones, followed by more random writes and a full sweep; non-trivial = source with >= 1 revert and an id gap, and the post-import first write through a bulk; distinct = by source history + path"
+const ruleC11 = "a generated source history (postings and Numscript creates on both runtimes, reverts, metadata save/delete with adversarial strings, failing writes leaving id gaps) is exported with the real Export, sent through JSON, and imported with the real Import (state tracker included) into a fresh ledger of another bucket with the same features; the copy must equal the source on every read (transactions, accounts, volumes, aggregated balances, logs and their hashes); then the first write goes through a drawn path (single request / non-atomic bulk / atomic bulk, each optionally preceded by a metadata write - a write that takes the ledger out of 'initializing' without allocating a transaction id) and must succeed with ids that continue the imported ones, followed by more random writes and a full sweep; non-trivial = source with >= 1 revert and an id gap, and the post-import first write through a bulk; distinct = by source history + path"
 
 const FindingImportMetaDeleteDate = "C11-import-account-meta-delete-date"
 
@@ -196,7 +197,7 @@ func TestC11(t *testing.T) {
 			}
 		}
 		// ---- the copy stays writable through every path
-		path := rapid.SampledFrom([]string{"single", "bulk", "atomic-bulk"}).Draw(rt, "firstWritePath")
+		path := rapid.SampledFrom([]string{"single", "bulk", "atomic-bulk", "meta-then-single", "meta-then-create-in-bulk", "meta-then-create-in-atomic-bulk"}).Draw(rt, "firstWritePath")
 		var maxTx, maxLog uint64
 		for _, tx := range cp.M.Txs {
 			if tx.ID > maxTx {
@@ -209,27 +210,58 @@ func TestC11(t *testing.T) {
 			}
 		}
 		ps := ledger.Postings{ledger.NewPosting("world", "a", "USD/2", big.NewInt(7))}
+		metaFirst := strings.HasPrefix(path, "meta-then")
+		if path == "meta-then-single" {
+			// the write that takes the ledger out of 'initializing' allocates no transaction id
+			if kind := w.SaveAccountMeta(cp, "a:b", map[string]string{"after": "import"}, false); kind != ErrNone {
+				w.V("C11", "first write (account metadata) on the imported ledger failed: %q\nsource history:\n  %s", kind, src.History())
+			}
+			maxLog++
+		}
 		switch path {
-		case "single":
+		case "single", "meta-then-single":
 			out := w.CreateTx(cp, TxRequest{Postings: ps})
 			if out.Kind != ErrNone {
-				w.V("C11", "first write (single request) on the imported ledger failed: %v\nsource history:\n  %s", out.Err, src.History())
+				w.V("C11", "first transaction (%s) on the imported ledger failed: %v\nsource history:\n  %s", path, out.Err, src.History())
 			} else if *out.Tx.ID != maxTx+1 || *out.Log.ID != maxLog+1 {
-				w.V("C11", "first write on the imported ledger got tx id %d / log id %d, expected %d / %d", *out.Tx.ID, *out.Log.ID, maxTx+1, maxLog+1)
+				w.V("C11", "first transaction (%s) on the imported ledger got tx id %d / log id %d, expected %d / %d", path, *out.Tx.ID, *out.Log.ID, maxTx+1, maxLog+1)
 			}
 		default:
-			res, err := w.runBulk(cp, []bulking.BulkElement{createElement(ps, ""), createElement(ledger.Postings{ledger.NewPosting("world", "bank", "EUR", big.NewInt(3))}, "")}, bulking.BulkingOptions{Atomic: path == "atomic-bulk"})
+			els := []bulking.BulkElement{createElement(ps, ""), createElement(ledger.Postings{ledger.NewPosting("world", "bank", "EUR", big.NewInt(3))}, "")}
+			if metaFirst {
+				raw, _ := json.Marshal("a:b")
+				els = append([]bulking.BulkElement{{Action: bulking.ActionAddMetadata, Data: bulking.AddMetadataRequest{TargetType: ledger.MetaTargetTypeAccount, TargetID: raw, Metadata: metadata.Metadata{"after": "import"}}}}, els...)
+			}
+			res, err := w.runBulk(cp, els, bulking.BulkingOptions{Atomic: strings.HasSuffix(path, "atomic-bulk")})
 			if err != nil {
 				w.V("C11", "first write (%s) on the imported ledger failed: %v\nsource history:\n  %s", path, err, src.History())
 			}
+			nextTx, nextLog := maxTx, maxLog
 			for i, r := range res {
 				if r.Error != nil {
 					w.V("C11", "first write (%s) on the imported ledger: element %d failed: %v\nsource history:\n  %s", path, i, r.Error, src.History())
 					continue
 				}
+				nextLog++
+				if metaFirst && i == 0 {
+					if r.LogID != nextLog {
+						w.V("C11", "first write (%s): the metadata element got log id %d, expected %d", path, r.LogID, nextLog)
+					}
+					// keep the model in step
+					at := w.Env.Sim.Clock()
+					for _, row := range w.Env.Sim.Rows(cp.Bucket, "logs") {
+						if row["ledger"].S == cp.Name && row["id"].N != nil && row["id"].N.Uint64() == r.LogID {
+							at = row["date"].T
+						}
+					}
+					cp.M.SaveAccountMeta("a:b", map[string]string{"after": "import"}, at, nil)
+					cp.M.Logs = append(cp.M.Logs, logOf(r.LogID, "SET_METADATA", nil))
+					continue
+				}
+				nextTx++
 				tx := r.Data.(ledger.Transaction)
-				if *tx.ID != maxTx+uint64(i)+1 || r.LogID != maxLog+uint64(i)+1 {
-					w.V("C11", "first write (%s): element %d got tx id %d / log id %d, expected %d / %d", path, i, *tx.ID, r.LogID, maxTx+uint64(i)+1, maxLog+uint64(i)+1)
+				if *tx.ID != nextTx || r.LogID != nextLog {
+					w.V("C11", "first write (%s): element %d got tx id %d / log id %d, expected %d / %d", path, i, *tx.ID, r.LogID, nextTx, nextLog)
 				}
 				// keep the model in step
 				mtx := txToModel(tx)
